@@ -76,3 +76,19 @@ Theorem C05_reachable_views_are_injective :
     /\ (Forall (fun n => 0 < n) (asz a) -> inj_upto (e_addr v) (nel v)).
 Proof. exact reachable_injective_proved. Qed.
 Print Assumptions C05_reachable_views_are_injective.
+
+(* Compactness is not canonical order: a block copy (Model/AssignFlat.v flat_copy = copy_n(src.base(), n, dst.base())) is
+   NOT assignment even when both operands are gap-free (is_compact()), have equal extensions and disjoint storage --
+   only C05_assign_exact's element-by-element semantics over elements() is.  (Seed C05-s10, DESIGN section 9.) *)
+From BM Require Import Model.AssignFlat Proofs.AssignFlatProofs.
+Theorem C05_block_copy_refuted :
+  exists (dst src : view) (m : mem) (k : Z),
+       v_is_compact dst = true /\ v_is_compact src = true
+    /\ l_extensions (lay dst) = l_extensions (lay src)
+    /\ er_size dst = er_size src
+    /\ (forall i j, 0 <= i < er_size dst -> 0 <= j < er_size src -> e_addr dst i <> e_addr src j)
+    /\ 0 <= k < er_size dst
+    /\ c_val (flat_copy (Z.to_nat (er_size dst)) (base dst) (base src) m (e_addr dst k))
+       <> c_val (assign_view (fun x => x) dst src m (e_addr dst k)).
+Proof. exact block_copy_refuted_proved. Qed.
+Print Assumptions C05_block_copy_refuted.
